@@ -348,6 +348,9 @@ class Lark(Serialize, Generic[_Return_T]):
                 if self.options.parser != 'lalr':
                     raise ConfigurationError("cache only works with parser='lalr' for now")
 
+            # The cache key cannot tell apart parsers whose terminals were changed by an edit_terminals
+            # callback (callbacks aren't hashable), so those are neither cached nor served from the cache.
+            if self.options.cache and self.options.edit_terminals is None:
                 unhashable = ('transformer', 'postlex', 'lexer_callbacks', 'edit_terminals', '_plugins')
                 options_str = ''.join(k+str(v) for k, v in options.items() if k not in unhashable)
                 from . import __version__
